@@ -1,7 +1,16 @@
 """The table MANIFEST.json is generated from (python3 drivers/manifest.py)."""
-from manifest import claim, skip
-
 HOOK_COMMITS = []
+CHECKS = {}
+NOT_APPLICABLE = {}
+
+
+def claim(pid, category, technique, text, note, ref):
+    CHECKS[pid] = (category, technique, text, note, ref)
+
+
+def skip(pid, reason):
+    NOT_APPLICABLE[pid] = reason
+
 
 claim("C10", "model_checking", "TLA+ implementation spec refines contract (TLC) + transition replay on both allocator copies + TLC validation of recorded traces",
       "WaHeap.tla transcribes malloc.wat block by block; TLC checks the C10 contract (WaHeapContract: in-heap, aligned, large enough, "
